@@ -341,7 +341,8 @@ std::streamsize instance_t::read_line(char *& line)
     context.curr_pos  = context.line_beg_pos;
     context.curr_pos += len;
 
-    if (context.linenum == 0 &&
+    // linenum has just been incremented: the first line of the file is line 1
+    if (context.linenum == 1 &&
         utf8::starts_with_bom(
           context.linebuf, context.linebuf + sizeof(context.linebuf))) {
       line = &context.linebuf[3];
